@@ -393,7 +393,7 @@ func runC16(t *mon.T, raw json.RawMessage) {
 func genC16(g *mon.G) {
 	r := gen.Rand(g.Seed)
 	targets := []string{"storage-rw", "storage-stream", "deferred-stream", "blockstore", "blockstore-many"}
-	for i := 0; i < g.Pick(60, 600); i++ {
+	for i := 0; i < g.Pick(150, 1500); i++ {
 		tg := targets[i%len(targets)]
 		cfg := lab.Cfg{StoreID: r.Intn(2) == 0, Sorted: r.Intn(2) == 0}
 		switch tg {
